@@ -487,6 +487,9 @@ class _TaintFlow(Flow):
         if isinstance(fn, ast.Attribute) and name in ("get", "pop", "setdefault", "values", "items", "keys", "copy") and not any(isinstance(t, FuncInfo) for t in tg):
             if name in ("values", "items", "keys", "copy"):
                 return FC if recv_t >= FC else FRESH
+            if name in ("pop", "setdefault") and recv_t == OWNED:
+                # pop / setdefault hand an element out AND change the container they are called on
+                eng.sink(f, c, f"calls .{name}() on a caller-owned object")
             return OWNED if recv_t >= FC else FRESH
         # --- sinks: mutating method on a caller-owned receiver
         if isinstance(fn, ast.Attribute) and name in MUTATING_METHODS and recv_t == OWNED and not any(isinstance(t, FuncInfo) for t in tg):
